@@ -11,6 +11,7 @@ import (
 
 	pipeline "github.com/buildkite/go-pipeline"
 	"github.com/buildkite/go-pipeline/signature"
+	"github.com/lestrrat-go/jwx/v2/jwk"
 	"pgregory.net/rapid"
 
 	"verif/harness/internal/canon"
@@ -593,6 +594,44 @@ var catalogue = []mutation{
 		}
 		w.vkey = rapid.SampledFrom(cand).Draw(t, "k").Pub
 		return true
+	}},
+	{"key-empty-set", true, func(t *rapid.T, w *world, _ *auxData) bool {
+		// a key set holding no key at all is not the signing key either
+		w.vkey = jwk.NewSet()
+		return true
+	}},
+	{"key-set-of-other-keys", true, func(t *rapid.T, w *world, _ *auxData) bool {
+		// several keys, none of them the signing key
+		set := jwk.NewSet()
+		for _, p := range keys.Pool() {
+			if p.PubSet == nil || p.Kind == w.kp.Kind {
+				continue
+			}
+			k, _ := p.PubSet.Key(0)
+			_ = set.AddKey(k)
+		}
+		if o := keys.Other(w.kp); o.PubSet != nil {
+			k, _ := o.PubSet.Key(0)
+			_ = set.AddKey(k)
+		}
+		w.vkey = set
+		return true
+	}},
+	{"penv-name-moves-into-the-namespace", true, func(t *rapid.T, w *world, _ *auxData) bool {
+		// the variable X is renamed to the variable literally called "env::X" (the text of X's own
+		// field name): another variable, so the signed X is missing and verification must fail
+		for _, k := range sortedKeys(w.venv) {
+			if _, signed := w.penv[k]; !signed {
+				continue
+			}
+			if _, shadowed := w.step.Env[k]; shadowed {
+				continue
+			}
+			w.venv["env::"+k] = w.venv[k]
+			delete(w.venv, k)
+			return true
+		}
+		return false
 	}},
 
 	// ---- benign: unsigned data or documented-equivalent spellings; verification must still succeed
